@@ -1135,7 +1135,8 @@ class SyncProjectsCloneOrSync(Contract):
     def cases(self):
         return [{"dry_run": d, "deep": dp, "recursive": r, "exists": e, "selection": s, "check_schema": cs}
                 for d in (False, True) for dp in (False, True) for r in (False, True) for e in (False, True) for s in (None, "ids", "empty") for cs in (True, False)
-                if (dp or not r) and (cs or not d)]
+                if (dp or not r) and (cs or not d)] + \
+               [{"dry_run": False, "deep": False, "recursive": False, "exists": True, "selection": None, "check_schema": True, "doc_sync": ds} for ds in ("default", "NO_SYNC", "COPY")]
 
     def loops(self, case):
         inv = lambda interp, fr, i, seq: z3.BoolVal(True)
@@ -1149,6 +1150,9 @@ class SyncProjectsCloneOrSync(Contract):
         g["calls"] = []
         strategy = NativeStub(lambda *a: True, "strategy")
         doc_sync = NativeStub(lambda s, d: g["calls"].append(("project_doc_sync", s, d)), "doc_sync")
+        if case.get("doc_sync"):
+            from signac.sync import DocSync
+            doc_sync = {"default": None, "NO_SYNC": DocSync.NO_SYNC, "COPY": DocSync.COPY}[case["doc_sync"]]
         g["strategy"], g["doc_sync"] = strategy, doc_sync
         the_job = SJobStub("j", g)
         other_job = SJobStub("unselected", g)
@@ -1245,6 +1249,7 @@ class SyncProjectsCloneOrSync(Contract):
                 return [g["job"]] if case["selection"] == "ids" else []
             return NotImplemented
         ctx.comprehension = comprehension
+        ctx.callee_contracts[f"{SY}.DocSync.ByKey.__call__"] = lambda interp, b: ctx.ghost["calls"].append(("project_doc_sync", b["src"], b["dst"]))
         ctx.listify = lambda ex, v, f: [ctx.ghost["job"], ctx.ghost["other"]]
         orig = ctx.builtin_hook
 
@@ -1277,6 +1282,18 @@ class SyncProjectsCloneOrSync(Contract):
                              and clones[0][2].func.qual.endswith("_FileModifyProxy.copytree")))
         sjs = [c[1] for c in calls if c[0] == "sync_jobs"]
         ex.oblige(self.oname("ensures:existing_destination_jobs_are_synchronised_instead_of_cloned"), z3.BoolVal(len(sjs) == (len(sel_jobs) if case["exists"] else 0)))
+        if case.get("doc_sync"):
+            from pyvc.interp import Obj as _Obj
+            for b in sjs:
+                got = b["doc_sync"]
+                if case["doc_sync"] == "default":
+                    okd = isinstance(got, _Obj) and got.cls.name == "ByKey" and got.fields.get("key_strategy") is None
+                else:
+                    okd = got is g["doc_sync"]
+                ex.oblige(self.oname("call[sync_jobs]:no_doc_sync_means_key_by_key,_NO_SYNC_and_COPY_are_passed_on_as_they_are"), z3.BoolVal(bool(okd)), note=repr(got))
+            pds = [c for c in calls if c[0] in ("project_doc_sync", "create_doc_backup")]
+            ex.oblige(self.oname("ensures:the_project_document_is_left_alone_under_NO_SYNC"), z3.BoolVal(case["doc_sync"] != "NO_SYNC" or pds == []), note=repr([c[0] for c in pds]))
+            return
         for b in sjs:
             ok = (b["strategy"] is g["strategy"] and b["exclude"] == "pat" and b["doc_sync"] is g["doc_sync"] and b["recursive"] is case["recursive"] and b["dry_run"] is px)
             ex.oblige(self.oname("call[sync_jobs]:forwards_strategy_exclude_doc_sync_recursive_and_the_proxy"), z3.BoolVal(bool(ok)))
